@@ -1,6 +1,7 @@
 package main
 
 import (
+	"strings"
 	"sort"
 	"fmt"
 	"go/token"
@@ -1176,4 +1177,337 @@ func ruleStmtList(p *Prog, r *Result) {
 		}
 	}
 	r.floor("write plans built from statements", n, 2)
+}
+
+// ---------------- CHECKROUTE ----------------
+
+func init() {
+	register("CHECKROUTE", "sibling agreement between the type checker and the executor: two operators that (*BinaryOpExpr).Execute routes to the same evaluation helper are routed by (*BinaryOpExpr).Check to the same typing helper (an operator spelled with a word - and/or - is typed like its symbol), so no operator reaches an evaluator whose operand types its typing rule did not establish", ruleCheckRoute)
+}
+
+func ruleCheckRoute(p *Prog, r *Result) {
+	exe := p.MethodByName("BinaryOpExpr", "Execute")
+	chk := p.MethodByName("BinaryOpExpr", "Check")
+	if exe == nil || chk == nil {
+		r.undecided("anchor: (*BinaryOpExpr).Execute / Check not found")
+		return
+	}
+	et, err := p.dispatchTable(exe)
+	if err != nil {
+		r.undecided("%v", err)
+		return
+	}
+	ops := p.typedConsts("Operator")
+	isOp := func(v ssa.Value) bool { return isFieldLoad(v, "BinaryOpExpr", "Op") }
+	// typing helper per operator: the method of BinaryOpExpr whose error Check returns under Op == v
+	checkOf := map[string]string{}
+	for v, name := range ops {
+		reach := walkAssuming(chk, decideEqConst(isOp, v))
+		helpers := map[string]bool{}
+		for _, b := range orderedBlocks(chk, reach) {
+			ret := retOf(b)
+			if ret == nil {
+				continue
+			}
+			ev := retVal(ret, 0)
+			if isNilConst(ev) {
+				continue
+			}
+			var walk func(x ssa.Value, d int)
+			seen := map[ssa.Value]bool{}
+			walk = func(x ssa.Value, d int) {
+				if x == nil || seen[x] || d > 6 {
+					return
+				}
+				seen[x] = true
+				switch y := x.(type) {
+				case *ssa.Phi:
+					for i, e := range y.Edges {
+						if reach[y.Block().Preds[i]] {
+							walk(e, d+1)
+						}
+					}
+				case *ssa.Extract:
+					walk(y.Tuple, d+1)
+				case *ssa.MakeInterface:
+					walk(y.X, d+1)
+				case *ssa.Call:
+					if !reach[y.Block()] {
+						return
+					}
+					if f := y.Call.StaticCallee(); f != nil && f.Signature.Recv() != nil && namedOf(f.Signature.Recv().Type()) != nil && namedOf(f.Signature.Recv().Type()).Obj().Name() == "BinaryOpExpr" {
+						helpers[f.Name()] = true
+					} else if f != nil {
+						helpers["reject:"+f.Name()] = true
+					}
+				}
+			}
+			walk(ev, 0)
+		}
+		// child checks (Left.Check / Right.Check) are invokes, not BinaryOpExpr helpers: ignored above
+		var hs []string
+		for h := range helpers {
+			hs = append(hs, h)
+		}
+		sort.Strings(hs)
+		checkOf[name] = strings.Join(hs, "+")
+	}
+	// group by evaluation helper
+	byExec := map[string][]string{}
+	for name, cls := range et {
+		for _, c := range []string{"str", "num"} {
+			if e := cls[c]; e != nil {
+				k := e.Callee.Name()
+				found := false
+				for _, x := range byExec[k] {
+					if x == name {
+						found = true
+					}
+				}
+				if !found {
+					byExec[k] = append(byExec[k], name)
+				}
+			}
+		}
+	}
+	n := 0
+	for _, helper := range sortedKeys(byExec) {
+		names := byExec[helper]
+		sort.Strings(names)
+		if len(names) < 2 {
+			continue
+		}
+		// majority typing helper among the operators sharing this evaluator
+		cnt := map[string]int{}
+		for _, nm := range names {
+			cnt[checkOf[nm]]++
+		}
+		best := ""
+		for h, c := range cnt {
+			if c > cnt[best] || (c == cnt[best] && h < best) {
+				best = h
+			}
+		}
+		for _, nm := range names {
+			n++
+			r.add(checkOf[nm] == best, fmt.Sprintf("%s|%s", helper, nm), p.Pos(chk.Pos()), fmt.Sprintf("operator %s is evaluated by %s like %v; it is typed by %q, its siblings by %q", nm, helper, names, checkOf[nm], best))
+		}
+	}
+	r.note("typing_helper_per_operator", checkOf)
+	r.floor("operators sharing an evaluation helper", n, 8)
+}
+
+// ---------------- ADMITCLASS ----------------
+
+func init() {
+	register("ADMITCLASS", "an operator whose evaluation is dispatched on `left operand is text / otherwise number` (comparisons, IN, BETWEEN) is admitted by the type checker only for operands of static type text or number: under the assumption that the left operand has any other static type (and the other operands agree with it wherever the helper compares them), no success return of its typing helper is reachable (constant propagation of the assumed type through the helper's branch conditions)", ruleAdmitClass)
+}
+
+func ruleAdmitClass(p *Prog, r *Result) {
+	exe := p.MethodByName("BinaryOpExpr", "Execute")
+	chk := p.MethodByName("BinaryOpExpr", "Check")
+	if exe == nil || chk == nil {
+		r.undecided("anchor: (*BinaryOpExpr).Execute / Check not found")
+		return
+	}
+	et, err := p.dispatchTable(exe)
+	if err != nil {
+		r.undecided("%v", err)
+		return
+	}
+	ops := p.typedConsts("Operator")
+	types_ := p.typedConsts("Type")
+	if len(types_) < 5 {
+		r.undecided("anchor: Type constants not found")
+		return
+	}
+	isOp := func(v ssa.Value) bool { return isFieldLoad(v, "BinaryOpExpr", "Op") }
+	isRT := func(v ssa.Value) bool {
+		c, ok := v.(*ssa.Call)
+		if !ok {
+			return false
+		}
+		if c.Call.IsInvoke() {
+			return c.Call.Method.Name() == "ReturnType"
+		}
+		f := c.Call.StaticCallee()
+		return f != nil && f.Name() == "ReturnType"
+	}
+	// the static type of the LEFT operand is the assumed one; other operands matter only through
+	// the helper's own comparisons with it (x.ReturnType() != ltype is assumed false)
+	isLeftRT := func(v ssa.Value) bool {
+		c, ok := v.(*ssa.Call)
+		if !ok || !isRT(v) {
+			return false
+		}
+		recv := c.Call.Value
+		if !c.Call.IsInvoke() && len(c.Call.Args) > 0 {
+			recv = c.Call.Args[0]
+		}
+		return p.derivesFromField(recv, "BinaryOpExpr", "Left", traceOpts{})
+	}
+	// static types the equality evaluator supports: every representation their producers box has a case
+	var eqSupported map[string]bool
+	if eq := p.MethodByName("BinaryOpExpr", "execEqual"); eq != nil {
+		have := switchCases(eq, func(v ssa.Value) bool {
+			_, isI := v.Type().Underlying().(*types.Interface)
+			return isI
+		})
+		kindsOf := map[string]map[string]bool{}
+		if rows, err := p.registry("funcMap"); err == nil {
+			for _, row := range rows {
+				if row.Body == nil {
+					continue
+				}
+				k, _ := p.bodyKinds(row.Body)
+				tnm := types_[row.Ret]
+				if kindsOf[tnm] == nil {
+					kindsOf[tnm] = map[string]bool{}
+				}
+				for x := range k {
+					kindsOf[tnm][x] = true
+				}
+			}
+		}
+		eqSupported = map[string]bool{}
+		for tnm, ks := range kindsOf {
+			all := len(ks) > 0
+			for k := range ks {
+				if !have[k] {
+					all = false
+				}
+			}
+			if all {
+				eqSupported[tnm] = true
+			}
+		}
+		r.note("static_types_supported_by_equality", keysOf(eqSupported))
+	}
+	n := 0
+	var opVals []int64
+	for v := range ops {
+		opVals = append(opVals, v)
+	}
+	sort.Slice(opVals, func(i, j int) bool { return opVals[i] < opVals[j] })
+	for _, v := range opVals {
+		name := ops[v]
+		es, en := et[name]["str"], et[name]["num"]
+		if es == nil || en == nil {
+			continue
+		}
+		supported := map[string]bool{"TSTR": true, "TNUMBER": true}
+		classNote := fmt.Sprintf("is evaluated by %s for text and %s otherwise", es.Callee.Name(), en.Callee.Name())
+		if es.Callee == en.Callee && strings.Join(es.Consts, ",") == strings.Join(en.Consts, ",") {
+			// not dispatched on the operand class: only the equality helper, whose type switch on the
+			// evaluated operand decides which static types it supports
+			if eqSupported == nil || !strings.HasPrefix(es.Callee.Name(), "execEqual") && !strings.HasPrefix(es.Callee.Name(), "execNotEqual") {
+				continue
+			}
+			supported = eqSupported
+			classNote = fmt.Sprintf("is evaluated by %s, whose type switch covers the representations of %v only", es.Callee.Name(), keysOf(eqSupported))
+		}
+		// the typing helper of this operator
+		reach := walkAssuming(chk, decideEqConst(isOp, v))
+		var helper *ssa.Function
+		for _, b := range orderedBlocks(chk, reach) {
+			for _, in := range b.Instrs {
+				if c, ok := in.(*ssa.Call); ok {
+					if f := c.Call.StaticCallee(); f != nil && f.Signature.Recv() != nil && strings.HasPrefix(f.Name(), "check") {
+						helper = f
+					}
+				}
+			}
+		}
+		if helper == nil {
+			r.hit("helper|"+name, p.Pos(chk.Pos()), "no typing helper found for class-dispatched operator "+name)
+			continue
+		}
+		var tvals []int64
+		for tv := range types_ {
+			tvals = append(tvals, tv)
+		}
+		sort.Slice(tvals, func(i, j int) bool { return tvals[i] < tvals[j] })
+		for _, tv := range tvals {
+			tn := types_[tv]
+			if supported[tn] {
+				continue
+			}
+			n++
+			decide := func(cond ssa.Value) int {
+				// a node kind whose ReturnType is a fixed constant other than the assumed type cannot be the operand
+				if ex, ok := cond.(*ssa.Extract); ok && ex.Index == 1 {
+					if ta, ok := ex.Tuple.(*ssa.TypeAssert); ok && isFieldLoad(ta.X, "BinaryOpExpr", "Left") {
+						if nt := namedOf(ta.AssertedType); nt != nil {
+							if ft, fixed := p.fixedReturnType(nt); fixed && ft != tv {
+								return 1
+							}
+						}
+					}
+				}
+				a, ok := condAtom(cond, true)
+				if !ok || (a.Op != token.EQL && a.Op != token.NEQ) {
+					return -1
+				}
+				x, y := a.X, a.Y
+				if _, isC := constInt(x); isC {
+					x, y = y, x
+				}
+				var eq, known bool
+				if c, isC := constInt(y); isC {
+					switch {
+					case isOp(x):
+						eq, known = c == v, true
+					case isLeftRT(x):
+						eq, known = c == tv, true
+					}
+				} else if isRT(x) && isRT(y) {
+					eq, known = true, true
+				}
+				if !known {
+					return -1
+				}
+				if a.Op == token.NEQ {
+					eq = !eq
+				}
+				if eq {
+					return 0
+				}
+				return 1
+			}
+			hr := walkAssuming(helper, decide)
+			accepted := ""
+			for _, b := range orderedBlocks(helper, hr) {
+				if ret := retOf(b); ret != nil && isNilConst(retVal(ret, 0)) {
+					accepted = p.InstrPos(ret)
+				}
+			}
+			r.add(accepted == "", fmt.Sprintf("%s|%s", name, tn), p.Pos(helper.Pos()), fmt.Sprintf("operator %s %s; its typing helper %s must reject operands of static type %s%s", name, classNote, helper.Name(), tn, map[bool]string{true: " but accepts them at " + accepted}[accepted != ""]))
+		}
+	}
+	r.floor("(class-dispatched operator, unsupported static type) pairs", n, 20)
+}
+
+// fixedReturnType: every return of T.ReturnType is the same constant.
+func (p *Prog) fixedReturnType(t *types.Named) (int64, bool) {
+	f := p.Method(t, "ReturnType")
+	if f == nil || len(f.Blocks) == 0 {
+		return 0, false
+	}
+	var val int64
+	have := false
+	for _, b := range f.Blocks {
+		ret := retOf(b)
+		if ret == nil {
+			continue
+		}
+		c, ok := constInt(retVal(ret, 0))
+		if !ok {
+			return 0, false
+		}
+		if have && c != val {
+			return 0, false
+		}
+		val, have = c, true
+	}
+	return val, have
 }
